@@ -139,48 +139,56 @@ theorem run_cons (t : GridTerm) (r : Req) (rs : List Req) : t.run (r :: rs) = (t
 
 theorem run_nil (t : GridTerm) : t.run [] = t := rfl
 
-/-- Printing characters that are all one column wide: one cell each, left to right. -/
-theorem putChs_narrow (cs : List Ch) (hw : ∀ c ∈ cs, c.width = 1) : ∀ t : GridTerm,
+theorem putGlyph_fit (t : GridTerm) (bs : List UInt8) (w : Int) (h : t.col + w ≤ t.cols) :
+    t.putGlyph bs w = t.putGlyphRaw bs w := by
+  unfold putGlyph
+  rw [if_neg (by omega)]
+
+/-- Printing characters that are all one column wide and fit on the line: one cell each, left to right. -/
+theorem putChs_narrow (cs : List Ch) (hw : ∀ c ∈ cs, c.width = 1) : ∀ t : GridTerm, t.col + cs.length ≤ t.cols →
     (t.putChs cs).line = t.line ∧ (t.putChs cs).col = t.col + cs.length ∧ (t.putChs cs).pen = t.pen ∧
     (t.putChs cs).oracle = t.oracle ∧ (t.putChs cs).nmaybe = t.nmaybe ∧ (t.putChs cs).viaWriteStr = t.viaWriteStr ∧
+    (t.putChs cs).cols = t.cols ∧
     (∀ l c, ¬ (l = t.line ∧ t.col ≤ c ∧ c < t.col + cs.length) → (t.putChs cs).cells l c = t.cells l c) ∧
     (∀ i : Nat, i < cs.length → (t.putChs cs).cells t.line (t.col + i) =
         { glyph := .chars (cs.getD i ⟨[], 0, 0⟩).bytes, pen := t.pen, writes := (t.cells t.line (t.col + i)).writes + 1 }) := by
   induction cs with
   | nil =>
-    intro t
+    intro t _
     simp [putChs]
   | cons c cs ih =>
-    intro t
+    intro t hfit
     have hc : c.width = 1 := hw c (by simp)
-    have ih' := ih (fun c' hc' => hw c' (by simp [hc'])) (t.putGlyph c.bytes 1)
-    have hstep : t.putChs (c :: cs) = (t.putGlyph c.bytes 1).putChs cs := by
-      simp only [putChs, List.foldl_cons, putCh, hc]
-      simp
-    rw [hstep]
-    obtain ⟨h1, h2, h3, h4, h5, h6, h7, h8⟩ := ih'
-    have g1 : (t.putGlyph c.bytes 1).line = t.line := rfl
-    have g2 : (t.putGlyph c.bytes 1).col = t.col + 1 := rfl
-    have g3 : (t.putGlyph c.bytes 1).pen = t.pen := rfl
     have hlen : ((c :: cs).length : Int) = (cs.length : Int) + 1 := by simp
+    rw [hlen] at hfit
+    have g1 : (t.putGlyphRaw c.bytes 1).line = t.line := rfl
+    have g2 : (t.putGlyphRaw c.bytes 1).col = t.col + 1 := rfl
+    have g3 : (t.putGlyphRaw c.bytes 1).pen = t.pen := rfl
+    have g4 : (t.putGlyphRaw c.bytes 1).cols = t.cols := rfl
+    have ih' := ih (fun c' hc' => hw c' (by simp [hc'])) (t.putGlyphRaw c.bytes 1) (by rw [g2, g4]; omega)
+    have hstep : t.putChs (c :: cs) = (t.putGlyphRaw c.bytes 1).putChs cs := by
+      simp only [putChs, List.foldl_cons, putCh, hc]
+      rw [if_neg (by omega), putGlyph_fit _ _ _ (by omega)]
+    rw [hstep]
+    obtain ⟨h1, h2, h3, h4, h5, h6, h6', h7, h8⟩ := ih'
     refine ⟨by rw [h1, g1], by rw [h2, g2, hlen]; omega, by rw [h3, g3], by rw [h4]; rfl,
-      by rw [h5]; rfl, by rw [h6]; rfl, ?_, ?_⟩
+      by rw [h5]; rfl, by rw [h6]; rfl, by rw [h6', g4], ?_, ?_⟩
     · intro l k hk
       rw [hlen] at hk
       rw [h7 l k (by rw [g1, g2]; omega)]
-      simp only [putGlyph]
+      simp only [putGlyphRaw]
       rw [if_neg (by omega)]
     · intro i hi
       cases i with
       | zero =>
         rw [h7 t.line (t.col + (0 : Nat)) (by rw [g1, g2]; omega)]
-        simp [putGlyph]
+        simp [putGlyphRaw]
         intro hcontra; omega
       | succ j =>
         have := h8 j (by simp only [List.length_cons] at hi; omega)
         rw [g1, g2, g3] at this
         rw [show t.col + ((j + 1 : Nat) : Int) = t.col + 1 + (j : Int) by omega, this]
-        simp only [putGlyph, List.getD_cons_succ]
+        simp only [putGlyphRaw, List.getD_cons_succ]
         rw [if_neg (by omega)]
 
 end GridTerm
